@@ -248,7 +248,14 @@ def panic_excerpt(err):
     stack = ""
     if m:
         stack = "\n".join(x for x in m.group(1).splitlines() if ".go:" in x or "lmd." in x)[:1200]
-    return ("\n".join(keep[:3]) + "\n" + stack)[:1800]
+    if not stack:
+        # Daemon.logPanicExit prints the stack without a heading: take the code locations that follow the panic line
+        lines = err.splitlines()
+        for i, l in enumerate(lines):
+            if "Panic:" in l or "panic:" in l or "fatal error" in l:
+                stack = "\n".join(x.strip() for x in lines[i + 1:i + 80] if ".go:" in x or "lmd." in x)[:1500]
+                break
+    return ("\n".join(keep[:3]) + "\n" + stack)[:2400]
 
 
 OBSERVATION_OPS = ("query", "session")
